@@ -35,6 +35,7 @@ STUB = STUB_ALL
 
 OVERRIDES = ["raise", "no-raise", "stop", "no-stop", "fail", "no-fail", "print", "no-print", "match", "no-match", "stop,match", "fail,no-print", "no-stop,no-fail", "raise,no-print", "no-raise,stop,fail"]
 # components of the template always vote 'match' on a clean line, except not(simfault()) which votes no
+MATCH_MODE_HONOURED = {"exc_value", "arg_type", "py_exc", "nested_when", "arg_match", "nested_not"}
 CLEAN_LINE_MATCHES = {"arg_match": True, "exc_match": True, "exc_value": True, "arg_type": True, "rule": True, "py_exc": True, "nested_when": True, "nested_not": False}
 
 
@@ -418,10 +419,18 @@ def execute(sc):
                 out.v("print_semantics", f"{mw}: printers received {g['printed']!r:.200}, expected {'some' if e['printed'] else 'no'} output", **facts)
             if g["lines"] is not None:
                 ret = [int(l[0][1:]) if l and l[0].startswith("r") else 0 for l in g["lines"]]
+                ret_has_header = True
                 if not e["match"]:
                     leaked = [l for l in ret if l in bad and l in e["evaluated"]]
                     if leaked:
                         out.v("offending_line_matched", f"{mw}: offending lines {leaked} were returned as matches", **facts)
+                # validation-mode: match is documented as "return True on error": where the unchanged library honours that
+                # (every error kind except an exception inside a match-position function), the offending line must be returned
+                P_eff, _m = effective(sc["policy"], sc["override"]["value"] if sc["override"] and sc["override"]["member"] == j else None)
+                if e["match"] and sc["kind"] in MATCH_MODE_HONOURED and not P_eff["stop"] and not P_eff["raise"] and not sc.get("tail"):
+                    lost = [l for l in e["evaluated"] if l in bad and l not in ret and (l >= 1 or ret_has_header)]
+                    if lost:
+                        out.v("match_mode_ignored", f"{mw}: validation-mode says match but offending lines {lost} were not returned (returned {ret})", **facts)
                 # lines on which nothing raised are untouched by the error machinery
                 t = sc.get("tail")
                 tl = t["line"] if t else None
